@@ -137,6 +137,17 @@ class SymArray(np.ndarray):
     def tolist(self):
         return self.view(np.ndarray).tolist()
 
+    def tobytes(self, order='C'):
+        """Bytes for hashing: one token per entry, chosen by solver entailment (ENG.hash_token)."""
+        import struct
+        out = []
+        for v in self.view(np.ndarray).ravel(order='C' if order in ('C', 'A', 'K', None) else 'F'):
+            if isinstance(v, SC):
+                out.append(struct.pack('qq', hash(v.re) & 0x7fffffffffffffff, hash(v.im) & 0x7fffffffffffffff))
+            else:
+                out.append(struct.pack('q', hash(v) & 0x7fffffffffffffff))
+        return b''.join(out)
+
     def fill(self, v):
         kind = real_dtype(self._fake).kind
         np.ndarray.fill(self, _coerce_entry(v, kind))
